@@ -79,6 +79,24 @@ package tglib
 //@ requires supi: vcIsImsiSupi(ue.Supi)
 //@ ensures kamf: len(ue.Kamf) == 32 && vcA32(ue.Kamf) == kdfspec.Kamf(kdfspec.Kseaf(kdfspec.Kausf(vcA16(key), vcA16(key[16:]), snName, SQN), snName), ue.Supi[5:], []byte{0, 0})
 //@ assigns &ue.Kamf
+// the same for a SUPI of 14 digits (the length field of the SUPI parameter of A.7 is the length of the SUPI)
+//@ behavior supi14
+//@ shape ue.Supi 19
+//@ requires supi: vcIsImsiSupiN(ue.Supi)
+//@ ensures kamf: len(ue.Kamf) == 32 && vcA32(ue.Kamf) == kdfspec.Kamf(kdfspec.Kseaf(kdfspec.Kausf(vcA16(key), vcA16(key[16:]), snName, SQN), snName), ue.Supi[5:], []byte{0, 0})
+//@ assigns &ue.Kamf
+// the same for a SUPI of 10 digits (the length field of the SUPI parameter of A.7 is the length of the SUPI)
+//@ behavior supi10
+//@ shape ue.Supi 15
+//@ requires supi: vcIsImsiSupiN(ue.Supi)
+//@ ensures kamf: len(ue.Kamf) == 32 && vcA32(ue.Kamf) == kdfspec.Kamf(kdfspec.Kseaf(kdfspec.Kausf(vcA16(key), vcA16(key[16:]), snName, SQN), snName), ue.Supi[5:], []byte{0, 0})
+//@ assigns &ue.Kamf
+// the same for a SUPI of 5 digits (the length field of the SUPI parameter of A.7 is the length of the SUPI)
+//@ behavior supi5
+//@ shape ue.Supi 10
+//@ requires supi: vcIsImsiSupiN(ue.Supi)
+//@ ensures kamf: len(ue.Kamf) == 32 && vcA32(ue.Kamf) == kdfspec.Kamf(kdfspec.Kseaf(kdfspec.Kausf(vcA16(key), vcA16(key[16:]), snName, SQN), snName), ue.Supi[5:], []byte{0, 0})
+//@ assigns &ue.Kamf
 
 // K_NASenc / K_NASint (A.8): algorithm type distinguishers 01 / 02, the algorithm identity, 128 LSBs.
 //@ func (*RanUeContext).DerivateAlgKey
